@@ -45,6 +45,8 @@ pub struct Inner {
     pub closed: bool,
     pub read_only: bool,
     pub contract: Contract,
+    /// every call (kind, offset, length / new length), when enabled: for Backend.tla
+    pub calllog: Option<Vec<(&'static str, u64, u64)>>,
 }
 
 pub struct Store {
@@ -68,13 +70,18 @@ impl Store {
                 closed: false,
                 read_only: false,
                 contract: Contract::default(),
+                calllog: None,
             }),
         })
     }
 
     pub fn backend(self: &Arc<Store>) -> MemBackend {
         // a new Database instance: the close flag belongs to the backend handed to redb
-        self.inner.lock().unwrap().closed = false;
+        let mut g = self.inner.lock().unwrap();
+        g.closed = false;
+        let (len, ro) = (g.data.len() as u64, u64::from(g.read_only));
+        g.note("bopen", len, ro);
+        drop(g);
         MemBackend {
             store: self.clone(),
         }
@@ -118,6 +125,20 @@ impl Store {
     pub fn faults_injected(&self) -> u64 {
         self.inner.lock().unwrap().faults_injected
     }
+
+    /// redb has let go of the backend handed out by `backend()` (database and transactions dropped,
+    /// or the open failed)
+    pub fn mark_done(&self) {
+        self.inner.lock().unwrap().note("bdone", 0, 0);
+    }
+
+    pub fn enable_calllog(&self) {
+        self.inner.lock().unwrap().calllog = Some(vec![]);
+    }
+
+    pub fn take_calllog(&self) -> Vec<(&'static str, u64, u64)> {
+        self.inner.lock().unwrap().calllog.as_mut().map(std::mem::take).unwrap_or_default()
+    }
 }
 
 pub struct MemBackend {
@@ -136,6 +157,12 @@ fn injected() -> io::Error {
 
 impl Inner {
     // common prologue of every call: contract monitoring and fault injection
+    fn note(&mut self, what: &'static str, a: u64, b: u64) {
+        if let Some(l) = self.calllog.as_mut() {
+            l.push((what, a, b));
+        }
+    }
+
     fn enter(&mut self, what: &str) -> Result<(), io::Error> {
         if self.closed {
             self.contract.after_close.push(what.to_string());
@@ -159,12 +186,14 @@ impl Inner {
 impl redb::StorageBackend for MemBackend {
     fn len(&self) -> Result<u64, io::Error> {
         let mut g = self.store.inner.lock().unwrap();
+        g.note("len", 0, 0);
         g.enter("len")?;
         Ok(g.data.len() as u64)
     }
 
     fn read(&self, offset: u64, out: &mut [u8]) -> Result<(), io::Error> {
         let mut g = self.store.inner.lock().unwrap();
+        g.note("read", offset, out.len() as u64);
         g.enter("read")?;
         let end = offset as usize + out.len();
         if end > g.data.len() {
@@ -178,6 +207,7 @@ impl redb::StorageBackend for MemBackend {
 
     fn set_len(&self, len: u64) -> Result<(), io::Error> {
         let mut g = self.store.inner.lock().unwrap();
+        g.note("set_len", len, 0);
         g.enter("set_len")?;
         if g.read_only {
             g.contract.ro_mutations.push(format!("set_len {len}"));
@@ -191,6 +221,7 @@ impl redb::StorageBackend for MemBackend {
 
     fn sync_data(&self) -> Result<(), io::Error> {
         let mut g = self.store.inner.lock().unwrap();
+        g.note("sync", 0, 0);
         g.enter("sync_data")?;
         if g.read_only {
             g.contract.ro_mutations.push("sync_data".to_string());
@@ -203,6 +234,7 @@ impl redb::StorageBackend for MemBackend {
 
     fn write(&self, offset: u64, data: &[u8]) -> Result<(), io::Error> {
         let mut g = self.store.inner.lock().unwrap();
+        g.note("write", offset, data.len() as u64);
         g.enter("write")?;
         if g.read_only {
             g.contract.ro_mutations.push(format!("write {offset}"));
@@ -225,6 +257,7 @@ impl redb::StorageBackend for MemBackend {
 
     fn close(&self) -> Result<(), io::Error> {
         let mut g = self.store.inner.lock().unwrap();
+        g.note("close", 0, 0);
         if g.closed {
             g.contract.after_close.push("close".to_string());
         }
